@@ -914,7 +914,73 @@ impl TowerSys {
                 trackers.insert(key, (dn, pn, c, h));
             }
         }
+        for (k, v) in uuid_map.iter() {
+            self.uuid_of.insert(k.clone(), *v);
+        }
         DbRow { users, appts, trackers }
+    }
+
+    /// the tower admin's view through the private API (get_tower_info, get_users, get_user, get_all_appointments,
+    /// get_appointments by locator), canonicalised; call after `read_db` (which learns the UUIDs)
+    pub fn admin(&mut self) -> String {
+        use teos::protos::private_tower_services_server::PrivateTowerServices;
+        let api = self.api.clone();
+        let info = self.rt.block_on(api.get_tower_info(Request::new(()))).map(|r| r.into_inner());
+        let info_s = match info {
+            Ok(i) => format!("{}/{}/{}/{}", i.n_registered_users, i.n_watcher_appointments, i.n_responder_trackers, if i.bitcoind_reachable { 1 } else { 0 }),
+            Err(e) => format!("err:{:?}", e.code()),
+        };
+        let users = self.rt.block_on(api.get_users(Request::new(()))).map(|r| r.into_inner().user_ids).unwrap_or_default();
+        let mut unames: Vec<u32> = users.iter().map(|id| PublicKey::from_slice(id).map(|pk| self.user_name(&pk)).unwrap_or(999_999)).collect();
+        unames.sort();
+        let mut per_user = vec![];
+        for u in self.users_seen.clone() {
+            let req = msgs::GetUserRequest { user_id: UserId(user_key(u).pk).to_vec() };
+            match self.rt.block_on(api.get_user(Request::new(req))) {
+                Ok(r) => {
+                    let r = r.into_inner();
+                    let mut locs: Vec<String> = r.appointments.iter().map(|id| match self.uuid_of.get(id) {
+                        Some((l, owner)) if *owner == u => format!("l{l}"),
+                        Some((l, owner)) => format!("l{l}-of-u{owner}"),
+                        None => "unknown-uuid".to_string(),
+                    }).collect();
+                    locs.sort();
+                    per_user.push(format!("u{u}:{}/{}:{}", r.available_slots, r.subscription_expiry, locs.join(",")));
+                }
+                Err(e) => per_user.push(format!("u{u}:{:?}", e.code())),
+            }
+        }
+        let fmt_data = |sys: &Self, v: Vec<common_msgs::AppointmentData>| -> Vec<String> {
+            let mut out: Vec<String> = v.into_iter().map(|d| match d.appointment_data {
+                Some(common_msgs::appointment_data::AppointmentData::Appointment(a)) => {
+                    let l = sys.locnum.get(&a.locator).cloned().unwrap_or(999_999);
+                    let spec = sys.blobs.get(&a.encrypted_blob).map(|s| s.token()).unwrap_or_else(|| format!("unknown-blob:{}", a.encrypted_blob.len()));
+                    format!("a:l{l}:{spec}:{}", a.to_self_delay)
+                }
+                Some(common_msgs::appointment_data::AppointmentData::Tracker(t)) => {
+                    let num = |b: &Vec<u8>| bitcoin::Txid::from_slice(b).ok().and_then(|x| sys.txnum.get(&x).cloned()).map(|n| (n * 16).to_string()).unwrap_or_else(|| "?".into());
+                    format!("t:t{}:t{}", num(&t.dispute_txid), num(&t.penalty_txid))
+                }
+                None => "empty".to_string(),
+            }).collect();
+            out.sort();
+            out
+        };
+        let all = self.rt.block_on(api.get_all_appointments(Request::new(()))).map(|r| r.into_inner().appointments).unwrap_or_default();
+        let all_s = fmt_data(self, all);
+        // by locator: every locator the harness has named
+        let mut by_loc = vec![];
+        let mut locs: Vec<(u32, Vec<u8>)> = self.locnum.iter().filter(|(_, n)| **n < 1000).map(|(b, n)| (*n, b.clone())).collect();
+        locs.sort();
+        locs.dedup_by_key(|x| x.0);
+        for (n, bytes) in locs {
+            let r = self.rt.block_on(api.get_appointments(Request::new(msgs::GetAppointmentsRequest { locator: bytes }))).map(|r| r.into_inner().appointments).unwrap_or_default();
+            let f = fmt_data(self, r);
+            if !f.is_empty() {
+                by_loc.push(format!("l{n}={}", f.join("+")));
+            }
+        }
+        format!("info={info_s} users=[{}] user=[{}] all=[{}] byloc=[{}]", unames.iter().map(|u| format!("u{u}")).collect::<Vec<_>>().join(" "), per_user.join(" "), all_s.join(" "), by_loc.join(" "))
     }
 
     pub fn dump(&mut self) -> String {
